@@ -90,16 +90,24 @@ func (c *Ctx) OpFuncs(op *ssa.Function) []*ssa.Function {
 func (c *Ctx) OpContexts(op *ssa.Function) []*Origins {
 	var out []*Origins
 	fs := c.OpFuncs(op)
-	for _, g := range fs {
-		if g.Parent() == nil && g != op && c.P.IsNewFunc(g) {
+	// a helper called from another new helper is entered through the whole chain of call sites
+	var ctxs func(g *ssa.Function, depth int) []*Origins
+	ctxs = func(g *ssa.Function, depth int) []*Origins {
+		if g.Parent() == nil && g != op && c.P.IsNewFunc(g) && depth < 4 {
+			var res []*Origins
 			for _, site := range c.callersOf(g) {
-				if c.scope[site.Parent()] {
-					out = append(out, c.P.OriginsOf(site.Parent()).Enter(g, site))
+				if c.scope[site.Parent()] && site.Parent() != g {
+					for _, pc := range ctxs(site.Parent(), depth+1) {
+						res = append(res, pc.Enter(g, site))
+					}
 				}
 			}
-			continue
+			return res
 		}
-		out = append(out, c.P.OriginsOf(g))
+		return []*Origins{c.P.OriginsOf(g)}
+	}
+	for _, g := range fs {
+		out = append(out, ctxs(g, 0)...)
 	}
 	return out
 }
